@@ -345,6 +345,7 @@ def run_unbiased_case(case):
     return {'fails': fails, 'n': S, 'nontrivial': True}
 
 
+run_subsample_case, run_generate_case = vu.history_guard(run_subsample_case), vu.history_guard(run_generate_case)
 SCOPES = {'subsample': run_subsample_case, 'kernel': run_kernel_case, 'generate_subsamples': run_generate_case,
           'unbiased': run_unbiased_case}
 
